@@ -41,6 +41,21 @@ Theorem C18_generate : forall from to,
 Proof. exact c18_generate. Qed.
 Print Assumptions C18_generate.
 
+(** The same round trip inside the library, as the correspondence harness performs it: duplicate [from], apply
+    the generated patch with cJSONUtils_MergePatchCaseSensitive (nothing when the patch is NULL): the result is [to]. *)
+Theorem C18_generate_library : forall from to,
+  m7396_doc from = true -> m7396_doc to = true -> no_null_member to = true ->
+  m7396_depth_ok from = true -> m7396_depth_ok to = true ->
+  exists p from' to' d,
+    cJSONUtils_GenerateMergePatchCaseSensitive (Some from) (Some to) = Ok (p, Some from', Some to') /\
+    mp_Duplicate (Some from) = Some d /\
+    match p with
+    | None => doc_eq d to = true
+    | Some s => exists r, cJSONUtils_MergePatchCaseSensitive (Some d) (Some s) = Some r /\ doc_eq r to = true
+    end.
+Proof. exact c18_generate_library. Qed.
+Print Assumptions C18_generate_library.
+
 (** … at every nesting level: the recursive function itself, for any fuel it was called with. *)
 Theorem C18_generate_every_level : forall fuel from to p from' to',
   gd from -> gd to -> no_null_member to = true -> depth_ok to ->
@@ -70,6 +85,11 @@ Theorem C18_reordered_same_value : forall a a',
   dperm a a' -> m7396_doc a = true -> doc_eq a a' = true /\ doc_eq a' a = true.
 Proof. exact c18_dperm_same_value. Qed.
 Print Assumptions C18_reordered_same_value.
+
+(** [doc_eq] is the boolean form of the declarative equality of documents [doc_equiv] (Rfc7396.v). *)
+Theorem C18_doc_eq_declarative : forall a b, doc_eq a b = true <-> doc_equiv a b.
+Proof. exact c18_doc_eq_declarative. Qed.
+Print Assumptions C18_doc_eq_declarative.
 
 (** Non-vacuity.  target {"a":1,"A":{"k":1,"K":2},"b":"x"}, patch
     {"A":{"K":null,"n":{"q":null,"r":true}},"b":null,"c":[null],"a":{"z":null}}: the hypotheses of C18_apply
